@@ -28,24 +28,31 @@
 #endif
 
 #if SHAPE == 0
+#define SHAPE_DEPTH 0
 #define NNODES 1
 static const int g_parent[1] = { -1 };
 #elif SHAPE == 1
+#define SHAPE_DEPTH 1
 #define NNODES 2
 static const int g_parent[2] = { -1, 0 };
 #elif SHAPE == 2
+#define SHAPE_DEPTH 2
 #define NNODES 3
 static const int g_parent[3] = { -1, 0, 1 };
 #elif SHAPE == 3
+#define SHAPE_DEPTH 3
 #define NNODES 4
 static const int g_parent[4] = { -1, 0, 1, 2 };
 #elif SHAPE == 4
+#define SHAPE_DEPTH 1
 #define NNODES 3
 static const int g_parent[3] = { -1, 0, 0 };
 #elif SHAPE == 5
+#define SHAPE_DEPTH 2
 #define NNODES 4
 static const int g_parent[4] = { -1, 0, 1, 1 };
 #elif SHAPE == 6
+#define SHAPE_DEPTH 2
 #define NNODES 4
 static const int g_parent[4] = { -1, 0, 0, 1 };
 #else
